@@ -153,6 +153,9 @@ macro_rules! repr_ops_body {
         "is_odd" => ok1(Val::Bool(a(0)?.is_odd())),
         "is_even" => ok1(Val::Bool(a(0)?.is_even())),
         "cmp" => ok1(ord(a(0)?.cmp(&a(1)?))),
+        "pcmp" => ok1(match a(0)?.partial_cmp(&a(1)?) { Some(o) => ord(o), None => Val::Int(2) }),
+        "lt" => ok1(Val::Bool(a(0)? < a(1)?)),
+        "gt" => ok1(Val::Bool(a(0)? > a(1)?)),
         "eq" => ok1(Val::Bool(a(0)? == a(1)?)),
         "from_u64" => {
             let l = get_limbs(arg($args, 0)?)?;
@@ -204,6 +207,12 @@ macro_rules! prime_ops {
         let a = |i: usize| -> R<$F> { $get(arg($args, i)?) };
         match $name {
             "cmp" => return ok1(ord(a(0)?.cmp(&a(1)?))),
+            "pcmp" => return ok1(match a(0)?.partial_cmp(&a(1)?) { Some(o) => ord(o), None => Val::Int(2) }),
+            "lt" => return ok1(Val::Bool(a(0)? < a(1)?)),
+            "gt" => return ok1(Val::Bool(a(0)? > a(1)?)),
+            "le" => return ok1(Val::Bool(a(0)? <= a(1)?)),
+            "ge" => return ok1(Val::Bool(a(0)? >= a(1)?)),
+            "max" => return ok1($wrap(::std::cmp::max(a(0)?, a(1)?))),
             "from_repr" => {
                 return Ok(match <$F>::from_repr($getr(arg($args, 0)?)?) {
                     Ok(v) => Out::Ok(vec![$wrap(v)]),
@@ -271,6 +280,12 @@ pub fn run(fam0: &str, name: &str, args: &[Val]) -> R<Out> {
             let a = |i: usize| -> R<Fq2> { get_fq2(arg(args, i)?) };
             match name {
                 "cmp" => return ok1(ord(a(0)?.cmp(&a(1)?))),
+                "pcmp" => return ok1(match a(0)?.partial_cmp(&a(1)?) { Some(o) => ord(o), None => Val::Int(2) }),
+                "lt" => return ok1(Val::Bool(a(0)? < a(1)?)),
+                "gt" => return ok1(Val::Bool(a(0)? > a(1)?)),
+                "le" => return ok1(Val::Bool(a(0)? <= a(1)?)),
+                "ge" => return ok1(Val::Bool(a(0)? >= a(1)?)),
+                "max" => return ok1(Val::Fq2(::std::cmp::max(a(0)?, a(1)?))),
                 "sqrt" => {
                     return Ok(match a(0)?.sqrt() {
                         Some(v) => Out::Ok(vec![Val::Fq2(v)]),
